@@ -127,6 +127,12 @@ def main():
     ev = fn_body(canonical, "extension_validation") or ""
     m = re.search(r"if self\.block_number != (\d+)", ev)
     facts.append(("payload_block_number_rule", "nat", num(m.group(1)) if m else None))
+    # ---- C13: id formats
+    idb = fn_body(bundle, "id") or ""
+    txt("id_formats", "|".join(re.findall(r'format!\(\s*"([^"]*)"', idb)))
+    adm = src("administrative_record.rs")
+    rb = fn_body(adm, "refbundle") or ""
+    txt("refbundle_formats", "|".join(re.findall(r'format!\(\s*"([^"]*)"', rb)))
     # ---- emit
     lines = ["/- GENERATED by tools/extract.py from /repo/src — do not edit. -/", "namespace Bp7.Extracted", ""]
     for name, kind, v in facts:
